@@ -12,6 +12,7 @@ EXTENDS TrafficFilterP
 
 CONSTANTS RaiseOnV6, RaiseOnUnicode, BlockInverted,
           CaseSensitive,       \* pinned commit: items and destination compared as typed (an upper-case item never matches)
+          MappedByPrefix,      \* breaking variant: IPv4-mapped literals unwrapped but the range table chosen by the first characters
           StripOnValidate      \* breaking variant: items validated without their blanks but stored and compared with them
 
 Filter(s, Keep(_)) == LET F[i \in 0..Len(s)] == IF i = 0 THEN <<>> ELSE IF Keep(s[i]) THEN Append(F[i-1], s[i]) ELSE F[i-1]
@@ -29,7 +30,11 @@ Result(c, valid, tvalid) ==
         stateOk == \A i \in DOMAIN blockUsed : ok(blockUsed[i])
         external ==
             CASE c.kind = "ip4" -> IF Internal4(c.ip) \/ c.ip = <<0, 0, 0, 0>> THEN "no" ELSE "yes"
-              [] c.kind = "ip6" -> IF RaiseOnV6 THEN "raise" ELSE IF c.v6 = "global" THEN "yes" ELSE "no"
+              \* IPv6Address.is_global, as far as the enumerated addresses go: not ::, not loopback / unique local / link local,
+              \* an IPv4-mapped address as global as the IPv4 address it carries
+              [] c.kind = "ip6" -> IF RaiseOnV6 THEN "raise"
+                                   ELSE IF MappedByPrefix /\ Mapped(c.ip6) THEN "yes"      \* table chosen by the spelling "::"
+                                   ELSE IF c.ip6 = <<0, 0, 0, 0, 0, 0, 0, 0>> \/ Internal6(c.ip6) THEN "no" ELSE "yes"
               [] OTHER -> CASE c.rsv = "ok" -> IF Internal4(c.ip) \/ c.ip = <<0, 0, 0, 0>> THEN "no" ELSE "yes"
                             [] c.rsv = "unicode" -> IF RaiseOnUnicode THEN "raise" ELSE "no"
                             [] OTHER -> "no"
